@@ -53,6 +53,12 @@ def _ntoa(b):
 def register(reg):
     c07.register(reg)
     reg.fns[HPP].also.append(PID)
+    # "every valid datagram is delivered": a datagram whose header the parser refuses is discarded by datagram_received, so the header
+    # parser's contracts (plain and zero-coded: the window handed to the expander covers the extra field) carry C06 too
+    from contracts import udp_common
+    udp_common.reg_parse_header(reg, "C02")
+    for inst in ("plain", "zerocoded"):
+        reg.fns["hippolyzer.lib.base.message.udpdeserializer:UDPMessageDeserializer._parse_message_header@" + inst].also.append(PID)
     h = z3.String("h_ax")
     reg.axiom_groups["inet"] = [
         z3.ForAll([h], z3.And(z3.Length(ATON(h)) == 4, NTOA(ATON(h)) == h), patterns=[ATON(h)]),
